@@ -19,8 +19,16 @@ pub enum Case {
     Structured { spec: ProgSpec, input: Vec<u8>, layout: Layout, via_source: bool },
     Image { orig: u16, words: Vec<u16>, input: Vec<u8>, stack: bool },
     /// the real binary with a pseudo-terminal as standard input: `keys` are typed one at a time
-    /// while the program waits for a key (the interactive path of GETC / IN)
-    Terminal { spec: ProgSpec, keys: Vec<char>, layout: Layout },
+    /// while the program waits for a key (the interactive path of GETC / IN). `mode` (absent = 0):
+    /// 0 stdin terminal, stdout pipe; 1 both the terminal; 2 stdin a pipe holding the keys' bytes,
+    /// stdout the terminal, with decoy keys typed into the terminal that nothing may read
+    Terminal {
+        spec: ProgSpec,
+        keys: Vec<char>,
+        layout: Layout,
+        #[serde(default)]
+        mode: u8,
+    },
 }
 
 pub fn input_bytes() -> impl Strategy<Value = Vec<u8>> {
@@ -81,7 +89,7 @@ pub fn snap_diff(l: &Snapshot, vm: &Vm) -> Option<String> {
 
 /// GETC / IN fed from an interactive terminal: every key contributes its UTF-8 bytes, one byte per
 /// trap (a non-ASCII byte reads as U+FFFD), and everything else is as in a piped run.
-fn judge_terminal(spec: &ProgSpec, keys: &[char], layout: Layout) -> Obs {
+fn judge_terminal(spec: &ProgSpec, keys: &[char], layout: Layout, mode: u8) -> Obs {
     use crate::cli::{self, TempDir};
     let mut obs = Obs::default();
     obs.label("terminal-input");
@@ -140,11 +148,25 @@ fn judge_terminal(spec: &ProgSpec, keys: &[char], layout: Layout) -> Obs {
         args.extend(["-f", "stack"]);
     }
     let typed: Vec<Vec<u8>> = keys[..nkeys].iter().map(|k| k.to_string().into_bytes()).collect();
-    let t0 = std::time::Instant::now();
-    let (run, ntyped) = cli::lace_tty(&args, dir.path(), &typed, false, 30);
-    if t0.elapsed().as_millis() > 500 {
-        obs.label("terminal-run-took-over-500ms");
-    }
+    obs.label(["stdin-terminal-stdout-pipe", "stdin-and-stdout-terminal", "stdin-pipe-stdout-terminal-with-decoy-keys"][mode as usize % 3]);
+    let piped: Vec<u8> = typed.concat();
+    let decoys = b"QWERTYUIOP";
+    let (run, ntyped) = match mode % 3 {
+        0 => cli::lace_tty(&args, dir.path(), &typed, false, 30),
+        1 => cli::lace_term(&args, dir.path(), &cli::TermOpts { keys: Some(&typed), piped_stdin: None, stdout_on_tty: true, decoys: &[], envs: &[] }, false, 30),
+        _ => {
+            // the program's input is the pipe; the keys waiting in the terminal are not for it
+            let (run, decoys_read) = cli::lace_term(&args, dir.path(), &cli::TermOpts { keys: None, piped_stdin: Some(&piped), stdout_on_tty: true, decoys, envs: &[] }, false, 30);
+            if !run.timed_out && decoys_read > 0 {
+                obs.set_fail(
+                    "C03:reads-the-terminal-although-stdin-is-a-pipe",
+                    format!("standard input is a pipe holding {:?}, yet {decoys_read} of the keys waiting in the terminal (stdout) were read\n{}\n{shown}", String::from_utf8_lossy(&piped), run.brief()),
+                );
+                return obs;
+            }
+            (run, nkeys)
+        }
+    };
     if run.timed_out {
         // waiting for a key that the reference says is never read, or a hang: not a verdict by itself
         if ntyped < nkeys {
@@ -177,8 +199,8 @@ fn judge_terminal(spec: &ProgSpec, keys: &[char], layout: Layout) -> Obs {
 }
 
 pub fn judge_case(c: &Case, budget: u64) -> Obs {
-    if let Case::Terminal { spec, keys, layout } = c {
-        return judge_terminal(spec, keys, *layout);
+    if let Case::Terminal { spec, keys, layout, mode } = c {
+        return judge_terminal(spec, keys, *layout, *mode);
     }
     let mut obs = Obs::default();
     let budget = budget + if let Case::Structured { spec, .. } = c { proggen::extra_budget(spec) } else { 0 };
@@ -435,7 +457,8 @@ fn terminal_cases() -> impl Strategy<Value = Case> {
             spec.main.insert(i, proggen::PgOp::InShow(echo));
         }
         spec.fit = 0;
-        Case::Terminal { spec, keys, layout }
+        let mode = (layout.seed % 3) as u8;
+        Case::Terminal { spec, keys, layout, mode }
     })
 }
 
@@ -445,7 +468,7 @@ impl Prop for C03 {
     }
     fn rule(&self) -> &'static str {
         "Cases: (a) ProgGen structured programs that terminate by construction (ALU/memory blocks, counted loops nested up to 3, forward skips, JSR/JSRR/RET and CALL/RETS subroutines incl. bounded recursion, self-modifying stores, OUT/PUTS/PUTSP/PUTN/REG/GETC/IN, endings: HALT, run off the end, computed jump to 0xFFFF / below the origin / >= 0xFE00, unknown trap, raw 0xD word, HALT in the middle), \
-         run through lace's assembler or encoded by RefAsm and loaded raw; (b) arbitrary word images (uniform, opcode-weighted, near-PC control flow, traps) at origins 0..=0xFDFF (edges forced); input streams with ASCII, NUL, non-ASCII bytes and too few bytes; (c) the real binary with a pseudo-terminal as standard input (the interactive path of GETC / IN): programs that read 2-5 keys and print R0 after each, keys typed one at a time while the program waits - printable ASCII and 2-, 3- and 4-byte characters (each byte of a key is one read, a non-ASCII byte reads as U+FFFD): exit status, output and the number of keys consumed against RefVM. \
+         run through lace's assembler or encoded by RefAsm and loaded raw; (b) arbitrary word images (uniform, opcode-weighted, near-PC control flow, traps) at origins 0..=0xFDFF (edges forced); input streams with ASCII, NUL, non-ASCII bytes and too few bytes; (c) the real binary with a pseudo-terminal as standard input (the interactive path of GETC / IN): programs that read 2-5 keys and print R0 after each, keys typed one at a time while the program waits - printable ASCII and 2-, 3- and 4-byte characters (each byte of a key is one read, a non-ASCII byte reads as U+FFFD): exit status, output and the number of keys consumed against RefVM; in three arrangements of descriptors - terminal in / pipe out, terminal in and out, and pipe in (holding the keys' bytes) / terminal out with decoy keys waiting in the terminal, none of which may be read. \
          Oracle: RefVM — full snapshot right after load; stop reason and exit status; number of executed instructions; output character for character; input bytes consumed; full final snapshot (registers, PC, CC, 65,536 words); under a fuel of N loop iterations (out of fuel after exactly N instructions is a comparable outcome). \
          Non-trivial: >= 20 instructions executed and at least one of: taken backward branch, subroutine return, store into code that is later executed, trap output, input read, abnormal ending. Distinct = hash(origin, words, input, flag)."
     }
